@@ -59,12 +59,9 @@ func handleCat(params internal.HandlerFuncParams) ([]byte, error) {
 			cats = append(cats, key)
 			length += 1
 		}
-		res := fmt.Sprintf("*%d", length)
-		for i, cat := range cats {
-			res = fmt.Sprintf("%s\r\n+%s", res, cat)
-			if i == len(cats)-1 {
-				res = res + "\r\n"
-			}
+		res := fmt.Sprintf("*%d\r\n", length)
+		for _, cat := range cats {
+			res += fmt.Sprintf("+%s\r\n", cat)
 		}
 		return []byte(res), nil
 	}
@@ -73,12 +70,9 @@ func handleCat(params internal.HandlerFuncParams) ([]byte, error) {
 		var res string
 		for category, commands := range categories {
 			if strings.EqualFold(category, params.Command[2]) {
-				res = fmt.Sprintf("*%d", len(commands))
-				for i, command := range commands {
-					res = fmt.Sprintf("%s\r\n+%s", res, command)
-					if i == len(commands)-1 {
-						res = res + "\r\n"
-					}
+				res = fmt.Sprintf("*%d\r\n", len(commands))
+				for _, command := range commands {
+					res += fmt.Sprintf("+%s\r\n", command)
 				}
 				return []byte(res), nil
 			}
